@@ -3,6 +3,7 @@ From Coq Require Import Lia.
 Require Import Rapid.Model.Base Rapid.Model.Syntax Rapid.Model.Monad Rapid.Model.Engine Rapid.Model.Shrink.
 Require Import Rapid.Generated.Consts.
 Require Import Rapid.Proofs.EngineProofs.
+Require Import Rapid.Proofs.Glue.
 Local Open Scope nat_scope.
 
 (* no falsification, no early exit: exactly N valid cases with fewer than 10N skipped ones, or fewer than N
@@ -16,10 +17,7 @@ Theorem C09_counts :
     ((fb_valid r = checks /\ fb_invalid r < checks * c_invalidChecksMult)
      \/ (fb_valid r < checks /\ fb_invalid r = checks * c_invalidChecksMult)
      \/ (checks = 0 /\ fb_valid r = 0 /\ fb_invalid r = 0)).
-Proof.
-  intros geom LF HLF lvl p checks early seed He. unfold findBug0.
-  apply (findBug_counts geom LF HLF lvl p); auto; unfold mult; try lia.
-Qed.
+Proof. exact C09_counts_glue. Qed.
 Print Assumptions C09_counts.
 
 (* the verdict: OK only with N valid cases (or an early exit with at least one), otherwise the TB is failed *)
@@ -31,14 +29,7 @@ Theorem C09_verdict :
                (v = checks \/ (dc_early (tb_dc tb) = true /\ 0 < v))
     | _ => tb_failed tb = true
     end.
-Proof.
-  intros. unfold tb, checkTB. destruct (dc_err1 _) as [u|e] eqn:E1; [destruct (dc_err2 _) as [u2|e2] eqn:E2|].
-  - destruct (Nat.eqb_spec (dc_valid (doCheck geom LF lvl p files checks early seed cands clock)) checks) as [Hq|Hq]; cbn [orb].
-    + cbn. auto.
-    + destruct (dc_early _) eqn:Ee; cbn [andb]; [destruct (Nat.ltb_spec 0 (dc_valid (doCheck geom LF lvl p files checks early seed cands clock)))|]; cbn; auto.
-  - cbn [tb_verdict tb_failed]. destruct (tbk_eqb _ _); [destruct e2|]; reflexivity.
-  - cbn [tb_verdict tb_failed]. destruct (tbk_eqb _ _); [destruct (dc_err2 _) as [|[]]|]; reflexivity.
-Qed.
+Proof. exact C09_verdict_glue. Qed.
 Print Assumptions C09_verdict.
 
 (* after the first falsified case findBug generates no further test case: the log ends with it *)
